@@ -1,7 +1,8 @@
-(* C17: the classes repaired in validation/value.rs (fixes/fix-c17.patch) and validation/operation.rs
-   (fixes/fix2-c17-1.patch), on their witnesses: the specification's verdict, which the repaired code now gives,
-   against the deviation as it was (Known.v: xk_old_r_variables_defined, xk_old_r_values_correct_type,
-   xk_old_r_subscription_single_root, xk_old_r_subscription_no_skip_include). *)
+(* C17: the classes repaired in validation/value.rs (fixes/fix-c17.patch, fixes/fix2-c17-2.patch) and
+   validation/operation.rs (fixes/fix2-c17-1.patch), on their witnesses: the specification's verdict, which the
+   repaired code now gives, against the deviation as it was (Known.v: xk_old_r_variables_defined,
+   xk_old_r_values_correct_type, xk_old_r_subscription_single_root, xk_old_r_subscription_no_skip_include,
+   xk_old_r_variable_usages_allowed). *)
 From ApolloVerif Require Import Base.Chars Ast.Ast Schema.Model Exec.Compat Exec.Valid Exec.ValidProofs Exec.Known.
 
 Definition kx_Q : str := [81]. Definition kx_f : str := [102]. Definition kx_j : str := [106].
@@ -124,4 +125,70 @@ Lemma kx_subscription_neighbours :
     [ kx_sub [ kx_leaf kx_b []; SInline (Some kx_O) [kx_skip_true] [ kx_leaf kx_c [] ] ] ] = false /\
   xv_exec_valid xv_apollo_params kx_sub_schema
     [ kx_sub [ kx_leaf kx_a []; SInline (Some kx_I) [] [ kx_leaf kx_a [] ] ] ] = true.
+Proof. vm_compute. repeat split. Qed.
+
+(* ------------------------------------------------------------------------------------------------ *)
+(* D12d: variables nested in list and input-object literals (fixes/fix2-c17-2.patch) *)
+Definition kx_In : str := [73; 110]. Definition kx_x : str := [120]. Definition kx_y : str := [121].
+Definition kx_one : value := VInt [49].
+(* scalar Int  input In { x: Int!  y: Int! = 1 }  type Query { f(j: In): Int } *)
+Definition kx_in_schema : schema :=
+  {| sch_def := {| sd_desc := None; sd_dirs := []; sd_query := Some (mkcomp ODef kx_Q); sd_mutation := None;
+                   sd_subscription := None |};
+     sch_dirdefs := [];
+     sch_types :=
+       [ EScalar None xs_Int [] true;
+         EInput None kx_In []
+           [ mkcomp ODef {| iv_desc := None; iv_name := kx_x; iv_ty := TNonNullNamed xs_Int; iv_default := None;
+                            iv_dirs := [] |};
+             mkcomp ODef {| iv_desc := None; iv_name := kx_y; iv_ty := TNonNullNamed xs_Int;
+                            iv_default := Some kx_one; iv_dirs := [] |} ] false;
+         EObject None kx_Q [] []
+           [ mkcomp ODef {| fd_desc := None; fd_name := kx_f;
+                            fd_args := [ {| iv_desc := None; iv_name := kx_j; iv_ty := TNamed kx_In;
+                                            iv_default := None; iv_dirs := [] |} ];
+                            fd_ty := TNamed xs_Int; fd_dirs := [] |} ] false ] |}.
+Definition kx_var_d (t : ty) (dv : option value) : vardef :=
+  {| v_name := kx_v; v_ty := t; v_default := dv; v_dirs := [] |}.
+
+(* `query($v: [Int]) { f(j: [$v]) }` with `j: [Int]`: a list where an Int is expected (5.8.5);
+   `query($v: Int) { f(j: {x: $v}) }` and `query($v: Int = null) { f(j: {x: $v}) }` with `x: Int!`: a nullable
+   variable in a non-null position without default.  The old test compared the named types only (Int = Int) and the
+   documents validated. *)
+Lemma kx_nested_variable_old_refuted :
+  (exists s d, xv_r_variable_usages_allowed s d = false /\ xv_exec_valid xv_apollo_params s d = false /\
+               xk_old_exec_valid_nested_variable xv_apollo_params s d = true) /\
+  (exists s d, xv_r_variable_usages_allowed s d = false /\ xv_exec_valid xv_apollo_params s d = false /\
+               xk_old_exec_valid_nested_variable xv_apollo_params s d = true) /\
+  (exists s d, xv_r_variable_usages_allowed s d = false /\ xv_exec_valid xv_apollo_params s d = false /\
+               xk_old_exec_valid_nested_variable xv_apollo_params s d = true).
+Proof.
+  split; [|split].
+  - exists (kx_schema (TList (TNamed xs_Int))), (kx_doc [kx_var (TList (TNamed xs_Int))] (VList [VVar kx_v])).
+    vm_compute. repeat split.
+  - exists kx_in_schema, (kx_doc [kx_var (TNamed xs_Int)] (VObject [(kx_x, VVar kx_v)])).
+    vm_compute. repeat split.
+  - exists kx_in_schema, (kx_doc [kx_var_d (TNamed xs_Int) (Some VNull)] (VObject [(kx_x, VVar kx_v)])).
+    vm_compute. repeat split.
+Qed.
+
+(* neighbours, by the specification (and the repaired code): an Int variable as an item of [Int]; a non-null
+   variable, or a nullable one with a non-null default, for `x: Int!`; a nullable variable for `y: Int! = 1` (the
+   field's default makes the usage allowed); a nullable item variable for `[Int!]` is not allowed; an Int variable
+   where the input field expects a list is not allowed (no list coercion of variables) *)
+Lemma kx_nested_variable_neighbours :
+  xv_exec_valid xv_apollo_params (kx_schema (TList (TNamed xs_Int)))
+    (kx_doc [kx_var (TNamed xs_Int)] (VList [VVar kx_v])) = true /\
+  xv_exec_valid xv_apollo_params kx_in_schema
+    (kx_doc [kx_var (TNonNullNamed xs_Int)] (VObject [(kx_x, VVar kx_v)])) = true /\
+  xv_exec_valid xv_apollo_params kx_in_schema
+    (kx_doc [kx_var_d (TNamed xs_Int) (Some kx_one)] (VObject [(kx_x, VVar kx_v)])) = true /\
+  xv_exec_valid xv_apollo_params kx_in_schema
+    (kx_doc [kx_var (TNamed xs_Int)] (VObject [(kx_x, kx_one); (kx_y, VVar kx_v)])) = true /\
+  xv_r_variable_usages_allowed (kx_schema (TList (TNonNullNamed xs_Int)))
+    (kx_doc [kx_var (TNamed xs_Int)] (VList [VVar kx_v])) = false /\
+  xk_old_r_variable_usages_allowed (kx_schema (TList (TNonNullNamed xs_Int)))
+    (kx_doc [kx_var (TNamed xs_Int)] (VList [VVar kx_v])) = true /\
+  xv_r_variable_usages_allowed (kx_schema (TList (TList (TNamed xs_Int))))
+    (kx_doc [kx_var (TNamed xs_Int)] (VList [VVar kx_v])) = false.
 Proof. vm_compute. repeat split. Qed.
